@@ -24,7 +24,7 @@ impl Property for C07 {
     }
 
     fn budget(&self) -> (u64, u64) {
-        (80_000, 2_400_000)
+        (50_000, 1_500_000)
     }
 
     fn rule(&self) -> &'static str {
@@ -40,10 +40,17 @@ impl Property for C07 {
         ]
     }
 
-    fn generate(&self, rng: &mut Rng, _thorough: bool) -> J {
+    fn generate(&self, rng: &mut Rng, thorough: bool) -> J {
         let cfg = if rng.chance(1, 2) { sqlgen::plain_table_cfg() } else { sqlgen::gen_table_cfg(rng) };
-        let lc = sqlgen::gen_line_cfg(rng);
+        let mut lc = sqlgen::gen_line_cfg(rng);
         let kind = *rng.pick(&["select", "select", "select", "nullrows", "join", "join", "aggregate"]);
+        // size regime: beyond every small constant a change could hide behind (many lines / groups)
+        let large = rng.chance(if thorough { 10 } else { 2 }, 100);
+        if large {
+            lc.keys = rng.range(20, 60) as usize;
+            lc.n_range = 1_000_000;
+            lc.null_pct = *rng.pick(&[0, 10]);
+        }
         let query = match kind {
             "select" => sqlgen::gen_select(rng, &cfg, false),
             "nullrows" => {
@@ -57,12 +64,29 @@ impl Property for C07 {
                 let mut q = sqlgen::gen_select(rng, &cfg, false);
                 q.join = Some(sqlgen::gen_join(rng));
                 q.projections = vec![rng.pick(&["t.k, u.m, w", "*", "t.n, u.k", "u.m"]).to_string()];
-                q.filter = if rng.chance(1, 4) { Some(sqlgen::gen_filter(rng, &cfg, "t.")) } else { None };
+                q.filter = match rng.below(4) {
+                    0 => Some(sqlgen::gen_filter(rng, &cfg, "t.")),
+                    1 => Some(sqlgen::gen_filter_joined(rng)),
+                    _ => None,
+                };
                 q
             }
-            _ => sqlgen::gen_aggregate(rng, &cfg, &AggCfg { order_insensitive: false, allow_join: true, max_aggs: 3 }),
+            _ => {
+                let mut q = sqlgen::gen_aggregate(rng, &cfg, &AggCfg { order_insensitive: false, allow_join: !large, max_aggs: 3 });
+                if large && rng.chance(3, 4) {
+                    // many groups
+                    q.group_by = vec!["n".to_owned()];
+                    q.projections = vec!["n".to_owned(), "COUNT(*) AS c".to_owned(), "SUM(n) AS s".to_owned()];
+                    q.having = if rng.chance(2, 3) { Some(format!("n >= {}", rng.range(0, 50_000))) } else { None };
+                }
+                q
+            }
         };
-        let n_lines = rng.range(0, 10) as usize;
+        let n_lines = if large {
+            if kind == "aggregate" { rng.range(1050, if thorough { 6000 } else { 1800 }) as usize } else { rng.range(30, 150) as usize }
+        } else {
+            rng.range(0, 10) as usize
+        };
         let noise_pct = *rng.pick(&[0, 0, 20]);
         let mut lines: Vec<Vec<u8>> = Vec::new();
         for _ in 0..n_lines {
@@ -120,6 +144,12 @@ impl Property for C07 {
     fn shrink(&self, case: &J) -> Vec<J> {
         use crate::shrink::*;
         let mut out = Vec::new();
+        if case.get("only_n").map(|x| x.is_null()).unwrap_or(true) {
+            // pin the failing n first: every later candidate then costs one world instead of a sweep
+            for n in 0..8 {
+                out.push(with_field(case, "only_n", json!(n)));
+            }
+        }
         bytes_array_field(case, "files", &mut out);
         bytes_field(case, "joined", &mut out);
         array_field(case, "fcuts", &mut out);
@@ -198,7 +228,17 @@ impl Property for C07 {
         let only_n = case.get("only_n").and_then(|x| x.as_u64()).map(|x| x as usize);
         let ns: Vec<usize> = match only_n {
             Some(n) => vec![n],
-            None => (0..=(rows + 2).min(14)).collect(),
+            None => {
+                if rows + 2 <= 14 {
+                    (0..=rows + 2).collect()
+                } else {
+                    let mut v: Vec<usize> = (0..=6).collect();
+                    v.extend([rows / 2, rows - 1, rows, rows + 1, rows + 2]);
+                    v.sort();
+                    v.dedup();
+                    v
+                }
+            }
         };
 
         for n in ns {
@@ -322,6 +362,9 @@ impl Property for C07 {
         }
         out.probe(&format!("kind_{}", kind), 1);
         out.probe("multi_file", (files.iter().filter(|f| !f.is_empty()).count() > 1) as u64);
+        out.probe("large_more_than_1024_rows_or_groups", (rows > 1024) as u64);
+        out.probe("large_more_than_16_rows", (rows > 16) as u64);
+        out.probe("filter_on_joined_column", (stmt.contains("WHERE u.") || stmt.contains("WHERE w ")) as u64);
         out
     }
 }
